@@ -34,6 +34,7 @@ const (
 	KRelay           = "relay"    // F-world relayer step
 	KConsumerTx      = "consumer_tx"
 	KRawPacket       = "raw_packet"
+	KRawAck          = "raw_error_ack" // a byzantine consumer answers the next validator-set packet with an error acknowledgement
 	KProbe           = "probe_handshake" // call a channel-handshake callback on a branched context (no state change)
 	KMulti           = "multi_tx" // one tx carrying the messages of all sub-actions (same sender)
 )
